@@ -2,6 +2,10 @@ module verif/harness
 
 go 1.23
 
+// The code under test is built into its own binaries with the GODEBUG defaults of its go.mod (go 1.18), e.g. the
+// pre-1.22 http.ServeMux. Packages that call it in-process get the same defaults.
+godebug default=go1.18
+
 require (
 	github.com/golang/protobuf v1.5.3
 	github.com/google/inverting-proxy v0.0.0
